@@ -91,8 +91,40 @@ def opScalingCheck : Op := fun j => do
   let w ← fFlList j "w"
   pure <| outBool (Model.Firm.scalingRaises S w (← fNat j "nprob") (← fNat j "nsev") (← fFlList j "probs"))
 
+/-- the labelled array of a WeightArray: coordinates, data, and for every supplied (probability, severity label) the weight
+    stored under that pair of labels -/
+def outWeightArray (wa : Model.Firm.WeightArray) (sev : List String) (probs : List Rat) : Json :=
+  let cells := probs.map fun p => Json.arr (sev.map fun s =>
+    match wa.lookup p s with
+    | some v => outFl v
+    | none => Json.null).toArray
+  outObj [("prob", Json.arr (wa.probCoords.map outRat).toArray), ("sev", outStrList wa.sevCoords),
+    ("data", outFlMat wa.data), ("lookup", Json.arr cells.toArray)]
+
+/-- model of `weights_from_warning_scaling` (after the checks) WITH its labels -/
+def opWfs : Op := fun j => do
+  let S ← getList (getList getNat) (← field j "S")
+  let w ← fFlList j "w"
+  let sev ← fStrList j "sev"
+  let probs ← getList getRat (← field j "probs")
+  match Model.Firm.weightsFromWarningScaling S w sev probs with
+  | none => pure (outErr "ValueError")
+  | some wa => pure (outWeightArray wa sev probs)
+
+def outRatMat (M : List (List Rat)) : Json := Json.arr (M.map fun r => Json.arr (r.map outRat).toArray).toArray
+
+/-- Spec: the level-set (staircase-corner) weights, the two domains, and what the loop returns on the documented domain -/
+def opScalingSpec : Op := fun j => do
+  let S ← getList (getList getNat) (← field j "S")
+  let w ← getList getRat (← field j "w")
+  pure <| outObj [("domain", outBool (decide (Spec.Firm.scalingDomain S w.length))),
+    ("doc_domain", outBool (decide (Spec.Firm.scalingDocDomain S w.length))),
+    ("spec", outRatMat (Spec.Firm.scalingWeights S w)), ("cut", outRatMat (Spec.Firm.scalingWeightsCut S w)),
+    ("corners", Json.arr ((List.range w.length).map fun l0 => outRatMat (Spec.Firm.cornerMatrix S (l0 + 1))).toArray)]
+
 def ops : OpTable := [("c12.firm", opFirm), ("c12.firm_spec", opFirmSpec), ("c12.firm_check", opFirmCheck),
   ("c12.rm", opRm), ("c12.rm_check", opRmCheck), ("c12.mw", opMw), ("c12.scaling", opScaling),
-  ("c12.scaling_check", opScalingCheck), ("c12.firm_domain", opFirmDomain), ("c12.rm_domain", opRmDomain)]
+  ("c12.scaling_check", opScalingCheck), ("c12.firm_domain", opFirmDomain), ("c12.rm_domain", opRmDomain),
+  ("c12.wfs", opWfs), ("c12.scaling_spec", opScalingSpec)]
 
 end SV.Driver.C12
